@@ -129,6 +129,12 @@ impl Cond {
         &self.conds
     }
 
+    /// an AND without expressions holds for every record (it constrains nothing),
+    /// an OR without expressions holds for none
+    pub fn is_constraint(&self) -> bool {
+        !self.conds.is_empty() || matches!(self.r#type, CondType::Or)
+    }
+
     pub fn push(mut self, expr: Expr) -> Self {
         self.conds.push(expr);
         self
@@ -162,7 +168,7 @@ impl Query {
     pub fn calc(&self) -> HashSet<Box<[u8]>> {
         // None: no condition applied yet (an empty set is a valid result)
         let mut result: Option<HashSet<Box<[u8]>>> = None;
-        for cond in self.conds.iter().filter(|c| !c.conds.is_empty()) {
+        for cond in self.conds.iter().filter(|c| c.is_constraint()) {
             result = Some(match result {
                 None => cond.result.clone(),
                 Some(r) => r
@@ -217,8 +223,7 @@ impl Query {
     }
 
     pub fn is_cond(&self) -> bool {
-        // a condition without expressions does not constrain anything
-        self.conds.iter().any(|c| !c.conds.is_empty())
+        self.conds.iter().any(|c| c.is_constraint())
     }
 
     pub fn order_by(&self) -> &Vec<(String, bool)> {
